@@ -131,7 +131,7 @@ def run(ctx):
                    "GenIDs": '{"a", "d"}', "GenKinds": '{"warn"}'},
         invariants=["LawsOK"], view="View"), timeout=1500)
     # 2. histories from the specification
-    nsim = 640 if quick else 8000
+    nsim = 640 if quick else 14000
     parts = 4 if quick else 16
     shapes = [(8, 3), (12, 4), (16, 4), (12, 3)]
     scripts = []
@@ -145,7 +145,7 @@ def run(ctx):
         raise vlib.Inconclusive("history generation produced only %d scripts" % len(scripts))
     # a smaller batch with database inserts (every one of them hangs, and takes the driver process with it, where
     # F-X04-2 is not repaired: they are kept apart from the other histories)
-    nins = 48 if quick else 400
+    nins = 48 if quick else 600
     with_insert = gen_scripts(ctx, nins, 10, 3, ctx.seed * 31 + 1000, insert=True) + DIRECTED
     nmain = len(scripts)
     scripts = scripts + with_insert
